@@ -242,7 +242,7 @@ def max_common_case(rng, kind=None):
 def int_weights_case(rng, kind=None, scalar=False):
     """Integer weights 0..250 whose sums cross 128 / 256 (pair form or an all-valid bare array), so that the narrow
     integer dtypes the form layer picks for them (uint8, int16 ...) are exercised where a narrow accumulator would wrap."""
-    c = gen_case(rng, kind=kind or rng.choice(["mean", "mean", "count", "valid_count", "sum"]), nd=rng.choice([1, 1, 2, 2]),
+    c = gen_case(rng, kind=kind or rng.choice(["mean", "mean", "mean", "count", "valid_count", "sum"]), nd=rng.choice([1, 1, 2, 2]),
                  N=rng.choice([3, 4, 5, 6, 8]))
     N = c["N"]
     c["wkind"] = rng.choice(["scalar", "scalar_pair"]) if scalar else rng.choice(["pair", "pair", "arr", "scalar", "scalar_pair"])
@@ -461,10 +461,11 @@ def build_weights(c):
     small = c["N"] <= 12 and not c.get("spread")
     tag = "float64"
     can_int = integral and ((wk == "pair" and (c["whidden"] in ("zero", "same") or all(c["wvalid"]))) or (wk == "arr" and all(c["wvalid"])))
-    if can_int and frng.random() < 0.6:
+    if can_int and frng.random() < (0.9 if c.get("int_weights") else 0.6):
         flat = [int(Fr(x)) for x in c["w"]]
         cands = forms.int_dtypes_holding(flat)
-        tag = cands[0] if frng.random() < 0.5 else frng.choice(cands)      # the narrowest in half of the cases
+        # the narrowest in half of the cases (in 80 % of the int-weights stream, whose sums cross the narrow dtype's range)
+        tag = cands[0] if frng.random() < (0.8 if c.get("int_weights") else 0.5) else frng.choice(cands)
         if tag == "int8" and "uint8" in cands and frng.random() < 0.5:
             tag = "uint8"
         vals = numpy.array(flat, dtype=tag)
@@ -1171,7 +1172,10 @@ def replay_inputs(ctx, path, rejudge):
     for it in items:
         c = case_from_json(it["case"])
         fmt = tuple(it["format"])
-        b = rejudge(catii, c, fmt, it)
+        if it.get("tag") == "relations":
+            b = rejudge_relations(catii, case_from_json(it.get("relations_base") or it["case"]), fmt)
+        else:
+            b = rejudge(catii, c, fmt, it)
         print("%s %s N=%s exts=%s weights=%s format=%s -> %s" % (it.get("cube", "?"), c["kind"], c["N"], c["exts"], c["wkind"], fmt, "VIOLATES: " + b if b else "ok"))
         if b:
             bad.append(dict(it, difference=b))
@@ -1268,7 +1272,7 @@ def run_relations(S, c, fmt):
             bad = compare(c_k, res["cells"], other["cells"], exact=not c_k.get("float_stream"))
             bad = bad and "differs from a fresh cube: " + bad
         if bad:
-            S.fail(c_k, fmt, which, "relations/%s step %s: %s" % (sc, step, bad), {"tag": "relations", "step": step})
+            S.fail(c_k, fmt, which, "relations/%s step %s: %s" % (sc, step, bad), {"tag": "relations", "step": step, "relations_base": case_json(c)})
         return not bad
 
     def cubes_for(cc, dims=None):
@@ -1370,11 +1374,11 @@ def run_relations(S, c, fmt):
         for w_ in "cx":
             m, p = mods[w_], {"c": "ffunc_", "x": "xfunc_"}[w_]
             todo = [k for k in [KINDS[i] for i in rel["order"]] if not is_shortcut(as_kind(c, k), fmt)]
-            funcs = [getattr(m, p + "count")(weights, None, c["ign"], rma) if k == "count" else getattr(m, p + k)(fact, weights, c["ign"], rma) for k in todo]
             try:
                 with warnings.catch_warnings():
                     warnings.simplefilter("ignore")
                     with numpy.errstate(all="ignore"):
+                        funcs = [getattr(m, p + "count")(weights, None, c["ign"], rma) if k == "count" else getattr(m, p + k)(fact, weights, c["ign"], rma) for k in todo]
                         outs = cu[w_].calculate(funcs)
             except Exception as e:
                 S.fail(c, fmt, w_, "relations/calculate-order: EXC %s: %s" % (type(e).__name__, str(e)[:200]), {"tag": "relations"})
@@ -1385,3 +1389,13 @@ def run_relations(S, c, fmt):
     # no call may have changed the caller's arrays (the next call sees them)
     if not (_same_content(fact, pristine[0]) and _same_content(weights, pristine[1])):
         S.fail(c, fmt, "c", "relations/%s: an aggregate modified the caller's fact / weights array in place" % sc, {"tag": "relations"})
+
+
+def rejudge_relations(catii, c, fmt):
+    """replay of a relations scenario: play it again on the current tree"""
+    class _S(Suite):
+        pass
+    S = Suite(None, catii)
+    base = c.get("_rel_base", c)
+    run_relations(S, base, fmt)
+    return "; ".join(f["difference"] for f in S.found[:3]) or None
